@@ -82,6 +82,7 @@ pub fn c38_replay() {
             None => (0..n_bytes).map(|i| (inputs[i % inputs.len()].clone(), rand_bytes(&mut rng))).collect(),
         };
         for (inp, bytes) in jobs {
+            util::arm_abort_report(&prop, None, &json!({"engine": "hv_sim_a", "flow": name, "input": inp.to_json(), "bytes": bytes}), rep.evaluations);
             let r1 = case.repro(&bytes, &inp);
             let r2 = case.repro(&bytes, &inp);
             rep.eval();
